@@ -483,6 +483,39 @@ func (se *SpecEnv) call(x *ast.CallExpr) (Val, error) {
 		h := fc.compAt(se.st, mh, arraySort("(Array "+ks+" Bool)"))
 		se.notePattern(sel(sel(h, m.T), k.T))
 		return Val{T: fc.mapHas(se.st, m.Typ, m.T, k.T), S: SBool, Typ: tBool}, nil
+	case "mapupd", "mapsame":
+		// mapupd(m, k, v): the map m now is old(m) with m[k] = v (and nothing else changed); mapsame(m): unchanged.
+		// Stated as array equalities, so no quantifier over keys is needed.
+		m, err := se.expr(x.Args[0])
+		if err != nil {
+			return Val{}, err
+		}
+		mt, ok := m.Typ.Underlying().(*types.Map)
+		if !ok {
+			return Val{}, fmt.Errorf("%s needs a map", name)
+		}
+		ks, vs := fc.mapSorts(mt)
+		mh, mv, ml := mapComps(m.Typ)
+		hs, vsrt := arraySort("(Array "+ks+" Bool)"), arraySort("(Array "+ks+" "+vs+")")
+		hNow, hOld := fc.compAt(se.st, mh, hs), fc.compAt(se.old, mh, hs)
+		vNow, vOld := fc.compAt(se.st, mv, vsrt), fc.compAt(se.old, mv, vsrt)
+		lNow, lOld := fc.compAt(se.st, ml, arraySort("Int")), fc.compAt(se.old, ml, arraySort("Int"))
+		if name == "mapsame" {
+			return Val{T: mkAnd(mkEq(sel(hNow, m.T), sel(hOld, m.T)), mkEq(sel(vNow, m.T), sel(vOld, m.T)), mkEq(sel(lNow, m.T), sel(lOld, m.T))), S: SBool, Typ: tBool}, nil
+		}
+		if err := argc(3); err != nil {
+			return Val{}, err
+		}
+		k, err := se.expr(x.Args[1])
+		if err != nil {
+			return Val{}, err
+		}
+		v, err := se.expr(x.Args[2])
+		if err != nil {
+			return Val{}, err
+		}
+		return Val{T: mkAnd(mkEq(sel(hNow, m.T), sto(sel(hOld, m.T), k.T, "true")), mkEq(sel(vNow, m.T), sto(sel(vOld, m.T), k.T, v.T)),
+			mkEq(sel(lNow, m.T), mkIte(sel(sel(hOld, m.T), k.T), sel(lOld, m.T), mkAdd(sel(lOld, m.T), "1")))), S: SBool, Typ: tBool}, nil
 	case "bigv":
 		if err := argc(1); err != nil {
 			return Val{}, err
@@ -573,6 +606,46 @@ func (se *SpecEnv) call(x *ast.CallExpr) (Val, error) {
 		}
 		ht := pt.Elem()
 		return Val{T: fc.hashOfHeader(se.st, p.T, ht), S: SInt, Typ: fc.hash32Type()}, nil
+	case "errFrom":
+		// errFrom(e, F): the cause of e was created by errors.New / fmt.Errorf inside function F
+		if err := argc(2); err != nil {
+			return Val{}, err
+		}
+		p, err := se.expr(x.Args[0])
+		if err != nil {
+			return Val{}, err
+		}
+		fn, err := fc.prog.resolveFuncName(se.pkgPath, exprString(x.Args[1]))
+		if err != nil {
+			return Val{}, err
+		}
+		fc.vc.declareFun("cause", []string{"Int"}, "Int")
+		fc.vc.declareFun("uf.errOrigin", []string{"Int"}, "Int")
+		return Val{T: mkAnd(mkNot(mkEq(p.T, "0")), mkEq("(uf.errOrigin (cause "+p.T+"))", fc.vc.originID(fn.String()))), S: SBool, Typ: tBool}, nil
+	case "nochange":
+		// every allocated cell of every heap component has its old value
+		if err := argc(0); err != nil {
+			return Val{}, err
+		}
+		var parts []string
+		frontier := fc.compAt(se.old, "alloc", "Int")
+		for _, comp := range sortedKeys(se.st.heap) {
+			if comp == "alloc" {
+				continue
+			}
+			srt := se.st.sorts[comp]
+			nowT := se.st.heap[comp]
+			oldT := fc.compAt(se.old, comp, srt)
+			if nowT == oldT {
+				continue
+			}
+			if strings.HasPrefix(srt, "(Array Int ") {
+				parts = append(parts, frameFormula(fc.vc, oldT, nowT, frontier, modTarget{comp: comp}))
+			} else {
+				parts = append(parts, mkEq(nowT, oldT))
+			}
+		}
+		return Val{T: mkAnd(parts...), S: SBool, Typ: tBool}, nil
 	case "cause":
 		p, err := se.expr(x.Args[0])
 		if err != nil {
@@ -821,12 +894,12 @@ func mkQuant(kind, v, sort, rng, body string, pats []string) string {
 			good = append(good, p)
 		}
 	}
-	if len(good) > 0 && q == "forall" {
+	if len(good) > 0 {
 		ps := ""
 		for _, p := range good {
 			ps += " :pattern (" + p + ")"
 		}
-		inner = "(! " + inner + ps + ")"
+		inner = "(! " + inner + ps + " :qid " + smtIdent(v) + ")"
 	}
 	return "(" + q + " ((" + v + " " + sort + ")) " + inner + ")"
 }
@@ -995,7 +1068,7 @@ func (se *SpecEnv) heapFunc(pf *PureFunc, args []Val) (Val, error) {
 				bt = mkSlice("0", "0", "0", "0")
 			}
 			lhs := app(level, qs)
-			fc.vc.assertGlobal("(forall (" + strings.Join(decl, " ") + ") (! (and (= " + lhs + " " + bt + ") (= " + lhs + " " + app(level-1, qs) + ")) :pattern (" + lhs + ")))")
+			fc.vc.assertGlobal("(forall (" + strings.Join(decl, " ") + ") (! (and (= " + lhs + " " + bt + ") (= " + lhs + " " + app(level-1, qs) + ")) :pattern (" + lhs + ") :qid def." + smtIdent(pf.Name) + "))")
 			// typing: for arguments allocated in this state the result (read from the heap) is well typed here
 			frontier := fc.compAt(se.st, "alloc", "Int")
 			allBase := true
